@@ -287,6 +287,114 @@ def top_level_future_cases() -> List[dict]:
     return out
 
 
+# ---- declarations made through the classmethod / the persist() hook; classes that share a name ------------------------------
+
+_STYLE_COUNTER = [0]
+
+
+def make_styled_pair(parent_style: str, child_style: str) -> Tuple[type, type, type]:
+    """(Parent, Child, Sibling): Parent declares 'a', Child adds 'b', Sibling (another subclass of Parent) adds nothing.
+    style: 'decorator' | 'classmethod' (cls.auto_persist(...) called after the class statement) | 'hook' (called from the
+    persist() hook) | 'none'."""
+    _STYLE_COUNTER[0] += 1
+    n = _STYLE_COUNTER[0]
+    module = sys.modules[__name__]
+
+    def build(name: str, base: type, member: Optional[str], style: str) -> type:
+        def __init__(self: Any) -> None:
+            self.a, self.b = ['a'], ['b']
+
+        ns: Dict[str, Any] = {'__init__': __init__, '__module__': __name__}
+        if style == 'hook' and member:
+            def persist(cls: Any, _m: str = member, _base: type = base) -> None:
+                super(klass_holder[0], cls).persist()
+                cls.auto_persist(_m)
+            ns['persist'] = classmethod(persist)
+        klass_holder: List[Any] = [None]
+        cls = type(name, (base,), ns)
+        klass_holder[0] = cls
+        if style == 'decorator' and member:
+            cls = persistence.auto_persist(member)(cls)
+            klass_holder[0] = cls
+        elif style == 'classmethod' and member:
+            cls.auto_persist(member)
+        setattr(module, name, cls)
+        return cls
+
+    parent = build(f'StyledParent{n}', persistence.Savable, 'a', parent_style)
+    child = build(f'StyledChild{n}', parent, 'b', child_style)
+    sibling = build(f'StyledSibling{n}', parent, None, 'none')
+    return parent, child, sibling
+
+
+def check_declaration_styles() -> List[dict]:
+    """What a class persists is what it and its bases declared, whichever way and in whichever order the classes are used."""
+    out: List[dict] = []
+    want = {'parent': {'a'}, 'child': {'a', 'b'}, 'sibling': {'a'}}
+    for parent_style in ('decorator', 'classmethod', 'hook'):
+        for child_style in ('decorator', 'classmethod', 'hook'):
+            for order in itertools.permutations(('parent', 'child', 'sibling')):
+                parent, child, sibling = make_styled_pair(parent_style, child_style)
+                classes = {'parent': parent, 'child': child, 'sibling': sibling}
+                case = {'styles': [parent_style, child_style], 'order': list(order)}
+                for round_ in (1, 2):
+                    for who in order:
+                        feats = {'parent_style': parent_style, 'child_style': child_style, 'who': who}
+                        try:
+                            saved = classes[who]().save()
+                        except BaseException as exc:  # noqa: BLE001
+                            out.append({'clause': 'declaration:save-raised', 'features': dict(feats, exc=type(exc).__name__),
+                                        'detail': repr(exc), 'case': case})
+                            continue
+                        got = {k for k in saved if k != persistence.META}
+                        if got != want[who]:
+                            out.append({'clause': 'declaration:members-differ', 'features': feats,
+                                        'detail': {'got': sorted(got), 'want': sorted(want[who]), 'round': round_}, 'case': case})
+    best: Dict[Any, dict] = {}
+    for v in out:
+        best.setdefault((v['clause'], repr(sorted(v['features'].items()))), v)
+    return list(best.values())
+
+
+@persistence.auto_persist('v')
+class Twin(persistence.Savable):
+    """Module level class ..."""
+
+    def __init__(self) -> None:
+        self.v = 'module-level'
+
+
+class Holder:
+    @persistence.auto_persist('v')
+    class Twin(persistence.Savable):
+        """... and a nested class of the same name (same ``__name__``, different ``__qualname__``)."""
+
+        def __init__(self) -> None:
+            self.v = 'nested'
+
+
+def check_same_name() -> List[dict]:
+    out: List[dict] = []
+    for which, cls in (('nested', Holder.Twin), ('module', Twin)):
+        case = {'same_name': which}
+        try:
+            saved = cls().save()
+        except ValueError:
+            continue  # refusing to identify a class that cannot be found again is fine
+        except BaseException as exc:  # noqa: BLE001
+            out.append({'clause': 'save-raised', 'features': {'exc': type(exc).__name__, 'loader': 'default', 'class': which},
+                        'detail': repr(exc), 'case': case})
+            continue
+        try:
+            loaded = persistence.Savable.load(saved)
+        except ValueError:
+            continue
+        if type(loaded) is not cls:
+            out.append({'clause': 'wrong-object', 'features': {'class': which},
+                        'detail': f'saved a {cls.__qualname__}, loaded a {type(loaded).__qualname__}', 'case': case})
+    return out
+
+
 # ---- loader histories: the result of a load must not depend on what was loaded before --------------------------------------
 
 @persistence.auto_persist('v')
@@ -444,7 +552,7 @@ def run_check(tier: str, seed: int, workers: Any) -> Dict[str, Any]:
     loop = VLoop()
     loop.install()
     try:
-        extra = check_unknown() + top_level_future_cases()
+        extra = check_unknown() + top_level_future_cases() + check_declaration_styles() + check_same_name()
     finally:
         loop.shutdown()
     total: Dict[str, Any] = {'n': 6, 'violations': extra, 'nontrivial': 0}
@@ -475,7 +583,8 @@ def run_check(tier: str, seed: int, workers: Any) -> Dict[str, Any]:
                 'two-level chains with <=3 declarations or a disjoint split of all 5, three-level chains with <=1 per '
                 'level) x future state {pending, result, exception, cancelled} x loader {default, global custom, custom in '
                 'the save context with and without a load context}; plus unknown class / loader identifiers, futures '
-                'saved on their own, and every history of <=2 (thorough 3) loads through loaders that give the same '
+                'saved on their own, three-class hierarchies whose declarations are made by decorator / classmethod / persist() hook '
+                'in every order of first use, a nested class that shares its name with a module-level class, and every history of <=2 (thorough 3) loads through loaders that give the same '
                 'identifier to different classes (context / recorded / global / default / reset); non-trivial = at least two declared members',
         'samples': [{'levels': repr(sample[0]), 'future': sample[1], 'loader': sample[2]}],
         'exhaustive': True,
@@ -495,6 +604,10 @@ def replay(doc: Dict[str, Any]) -> List[dict]:
     try:
         if 'unknown' in case:
             return check_unknown()
+        if 'styles' in case:
+            return check_declaration_styles()
+        if 'same_name' in case:
+            return check_same_name()
         if 'top_future' in case:
             return top_level_future_cases()
         if 'history' in case:
